@@ -7,6 +7,7 @@ alone. Oracle: it does not compile, or — if it does — serialize() panics and
 received no byte after the header.
 """
 import os
+import re
 import sys
 import time
 
@@ -169,6 +170,37 @@ fn main() {
 """
 
 
+# serialization started from a destructor WHILE THE THREAD IS UNWINDING from an unrelated panic
+# (a "store a checkpoint on drop" pattern): the run-time check must still stop it. A panic there
+# is a panic during cleanup, i.e. the process aborts; what reached the sink is read from a file.
+MAIN_ONDROP = """
+struct OnDrop<'a, T: Serialize>(&'a T, String);
+impl<'a, T: Serialize> Drop for OnDrop<'a, T> {
+    fn drop(&mut self) {
+        use std::io::Write;
+        let mut f = std::fs::File::create(&self.1).unwrap();
+        let _ = self.0.serialize(&mut f);
+        let _ = f.flush();
+    }
+}
+fn main() {
+    use std::io::Write;
+    let v = %(ctor)s;
+    let path = std::env::var("VERIF_PROBE_SINK").unwrap();
+    let needle = (FAKE_DATA.as_ptr() as usize).to_ne_bytes();
+    println!("NEEDLE {}", FAKE_DATA.as_ptr() as usize);
+    std::io::stdout().flush().unwrap();
+    std::panic::set_hook(Box::new(|_| {}));
+    let r = std::panic::catch_unwind(std::panic::AssertUnwindSafe(|| { let _g = OnDrop(&v, path.clone()); panic!("unrelated failure"); }));
+    // reached only if the destructor returned normally
+    let sink = std::fs::read(&path).unwrap_or_default();
+    let leaked = sink.windows(8).any(|w| w == needle);
+    let header = 37 + core::any::type_name::<%(ty)s>().len();
+    println!("RETURNED sink={} header={} pointer_in_sink={}", sink.len(), header, leaked);
+}
+"""
+
+
 def struct_item(name, attrs, derives, fields, style):
     a = "".join(f"#[{x}]\n" for x in attrs)
     if style == "named":
@@ -257,6 +289,9 @@ def family(tier):
     # zero-copy struct if the compile-time layer were absent (declared Zero, IS_ZERO_COPY = false),
     # used alone and inside every zero-copy container
     for label, ty, ctor in HAND_CONTEXTS:
+        if label in ("alone", "vec", "boxslice", "zero-struct-field", "generic-vec", "tuple2", "rangetoinclusive", "array"):
+            out.append((f"bad.hand.{label}.ondrop", PRELUDE + HAND + MAIN_ONDROP % {"ctor": ctor, "ty": ty}, "bad"))
+    for label, ty, ctor in HAND_CONTEXTS:
         # through the plain writer and through the schema-recording writer
         for entry, etag in (("serialize", ""), ("serialize_with_schema", ".schema")):
             out.append((f"bad.hand.{label}{etag}", PRELUDE + HAND + MAIN_HAND % {"ctor": ctor, "ty": ty, "entry": entry}, "bad"))
@@ -311,6 +346,22 @@ def main():
         elif not r["compiled"]:
             o = "rejected-at-compile-time:" + "+".join(r["errors"][:3])
             nontrivial += 1
+        elif ".ondrop" in pid:
+            out = r.get("stdout", "").strip()
+            nontrivial += 1
+            m = re.search(r"NEEDLE (\d+)", out)
+            needle = int(m.group(1)).to_bytes(8, "little") if m else None
+            sink = r.get("sink_file", b"")
+            if needle is None:
+                sys.stderr.write(f"MACHINERY: probe {pid} printed no needle: {out[:200]} {r.get('run_stderr', '')[:300]}\n")
+                sys.exit(2)
+            if needle in sink:
+                o = "written-as-raw-memory-from-a-destructor-during-unwinding"
+                violations.append((f"C17|{pid}|{o}", {"probe": pid, "observed": out, "exit": r.get("exit"), "sink_bytes": len(sink), "source": src}))
+            elif "RETURNED" in out:
+                o = "destructor-returned-without-writing-the-wrong-data"
+            else:
+                o = "aborted-before-any-byte-of-the-wrong-data"
         else:
             out = r.get("stdout", "").strip()
             nontrivial += 1
